@@ -98,7 +98,7 @@ Proof. intros H. destruct i as [|[|[|[|[|[|i]]]]]]; try lia; reflexivity. Qed.
 Lemma prologue_ok im args su :
   setup (List.length args) = Ok su ->
   exists s, exec_straight im su (init_state args) = Some s /\
-    frame_ok s sp0 /\ outer_ok s sp0 /\ out s = [] /\
+    frame_ok s sp0 /\ outer_ok s sp0 /\ out s = [] /\ (exists f, rget s FREE = Some f) /\
     (forall i, (i < List.length args)%nat -> rget s (5 + 2 * N.of_nat i)%N = Some (nth i args 0)).
 Proof.
   intros SU.
@@ -109,22 +109,26 @@ Proof.
   all: split; [split; [reflexivity|unfold sp_ok, sp0, STACK_LIMIT, STACK_TOP; change SPILL_SPACE with 2048; repeat split; try reflexivity; lia]|].
   all: split; [unfold outer_ok, sp0; repeat split; reflexivity|].
   all: split; [reflexivity|].
+  all: split; [eexists; reflexivity|].
   all: intros i Hi; cbn [List.length] in Hi; destruct i as [|[|[|[|[|i]]]]]; try lia; reflexivity.
 Qed.
 
-Lemma entry_rel c0 args e0 s :
-  bind (vars c0) (map VInt args) = Some e0 -> NoDup (ids c0) -> (List.length args <= 5)%nat ->
-  frame_ok s sp0 ->
+Lemma entry_rel CL c0 args e0 s :
+  bind (vars c0) (map VInt args) = Some e0 -> NoDup (ids c0) -> ctx_int c0 = true -> (List.length args <= 5)%nat ->
+  frame_ok s sp0 -> (exists f, rget s FREE = Some f) ->
   (forall i, (i < List.length args)%nat -> rget s (5 + 2 * N.of_nat i)%N = Some (nth i args 0)) ->
-  rel c0 e0 s sp0.
+  rel CL c0 e0 s sp0.
 Proof.
-  intros BD ND LE F RG. split; auto.
+  intros BD ND CI LE F FR RG. split; auto.
   - unfold sp0, STACK_LIMIT, STACK_TOP. lia.
   - unfold env_ids. rewrite <- (map_map fst idn), (bind_ids _ _ _ BD). unfold vars, ids. now rewrite map_map.
-  - intros i x v Hi. destruct (bind_nth _ _ _ _ _ _ BD Hi) as (_ & Hv).
+  - intros i x v Hi. destruct (bind_nth _ _ _ _ _ _ BD Hi) as (Hx & Hv).
     rewrite nth_error_map in Hv. destruct (nth_error args i) as [a|] eqn:Ha; [|discriminate]. cbn in Hv. inversion Hv; subst v.
+    unfold vars in Hx. rewrite nth_error_map in Hx. destruct (nth_error c0 i) as [b|] eqn:Hb; [|discriminate].
     assert (Li : (i < List.length args)%nat) by (apply nth_error_Some; congruence).
-    exists a, (XR (5 + 2 * N.of_nat i)%N). split; [reflexivity|]. split; [apply xtpos_reg; lia|].
+    destruct (ctx_int_nth c0 i b CI Hb) as (K & T).
+    exists b. split; [reflexivity|].
+    apply (vrep_int CL s sp0 i b a (XR (5 + 2 * N.of_nat i)%N) K T); [apply xtpos_reg; lia|].
     cbn [lget]. rewrite (RG i Li). f_equal. now apply nth_error_nth.
 Qed.
 
@@ -200,7 +204,7 @@ Proof.
                 [LAB "asm_main"] (su ++ is' ++ cleanup) CA LA eq_refl) as [CA0 _].
     destruct (layout_at im cs preamble su (is' ++ cleanup) CA LA eq_refl) as [CA1 _].
     cbn [List.length padd preamble] in CA0, CA1.
-    rewrite <- LEN in SU. destruct (prologue_ok im args su SU) as (s1 & E1 & F1 & OK1 & O1 & RG1).
+    rewrite <- LEN in SU. destruct (prologue_ok im args su SU) as (s1 & E1 & F1 & OK1 & O1 & FR1 & RG1).
     (* the entry definition follows the prologue *)
     cbn [translate] in TR.
     destruct (xcs (ptypes p) (dbody d0) (dctx d0) lc) as [[c0 lc0]|] eqn:C0; cbn [rbind] in TR; [|discriminate].
@@ -219,10 +223,10 @@ Proof.
       eapply exec_next; [exact CL|reflexivity|apply exec_refl]. }
     subst o.
     specialize (INTd d0 D0). unfold def_int in INTd. apply andb_true_iff in INTd as [I1 I2].
-    assert (R0 : rel (dctx d0) e0 s1 sp0).
+    assert (R0 : rel (fun _ _ _ => False) (dctx d0) e0 s1 sp0).
     { eapply entry_rel; eauto. eapply lin_nodup. exact (LINd d0 D0). }
     rewrite app_length in CAe, LAe. cbn [List.length preamble] in CAe, LAe. rewrite padd_add in CAe, LAe. cbn [padd] in CAe, LAe.
-    eapply (sim_exec im p sp0 DEFS CLEAN) with (c := dctx d0) (lc := lc); eauto.
+    eapply (sim_exec im p sp0 (fun _ _ _ => False) DEFS CLEAN) with (c := dctx d0) (lc := lc); eauto.
       intros d Hd. unfold int_frag in INT. rewrite forallb_forall in INT. exact (INT d Hd). }
   destruct (finishes_run im _ _ _ FIN) as (outer & inner & RN).
   exists outer, inner. unfold run_x86. cbv zeta. change (mk_image _) with im.
